@@ -3,7 +3,7 @@ import cfg
 from rules import util, arith
 from rules.arith import S, I, wadd, xor
 from rules.util import strip, canon
-from symex import show
+from symex import show, walk
 
 
 def raw_callee(ctx, method, default):
@@ -16,13 +16,13 @@ def raw_callee(ctx, method, default):
     return local[0] if len(local) == 1 else default
 
 
-def _traversal(ctx, se):
+def _traversal(ctx, se, dparam=1):
     """how the data slice (param 1) is walked: returns dict(mode, head, loop (blocks), in_term
     (the byte before the step), out_terms, writes) or (None, reason).  Modes: `for b in data`
     (slice IterMut), `for i in 0..data.len()`, and `while let Some((b, tail)) =
     mem::take(&mut rest).split_first_mut()` - each visits every element once, in order."""
     body = se.body
-    data_root = ("deref", ("param", 1))
+    data_root = ("deref", ("param", dparam))
     loops = util.for_loops(ctx, se)
     be = cfg.back_edges(body)
     if len(loops) == 1:
@@ -35,7 +35,7 @@ def _traversal(ctx, se):
                 loop |= l_
         st_in = se.in_state.get(head, {})
         src = strip(lp["init_call"][2][0]) if lp["init_call"] is not None else None
-        if strip(lp["init"] or ("?",)) == ("param", 1) and "slice::IterMut" in (lp["resolved"] or "") and lp["init_call"] is not None and lp["init_call"][1].endswith("for &'a mut [T]>::into_iter"):
+        if strip(lp["init"] or ("?",)) == ("param", dparam) and "slice::IterMut" in (lp["resolved"] or "") and lp["init_call"] is not None and lp["init_call"][1].endswith("for &'a mut [T]>::into_iter"):
             elem_in = ("deref", lp["elem"])
             writes = [(k, v) for k, v in se.assigns.items() if v[0] == elem_in or (v[0][0] == "deref" and strip(v[0][1]) == strip(lp["elem"]))]
             return {"mode": "iter", "head": head, "loop": loop, "in_term": strip(elem_in), "out_terms": [w[1][1] for w in writes], "writes": writes, "what": lp["resolved"]}
@@ -46,7 +46,7 @@ def _traversal(ctx, se):
             end = util.numnorm(src[4][1])
             phi_data = st_in.get(data_root)
             i_t = strip(lp["elem"])
-            if end[0] == "len" and strip_len(end) == ("param", 1) and phi_data is not None and phi_data[0] == "phi":
+            if end[0] == "len" and strip_len(end) == ("param", dparam) and phi_data is not None and phi_data[0] == "phi":
                 ins = se.phi_inputs[(phi_data[2], phi_data[3])]
                 steps = [v for p_, v in ins.items() if v != data_root]
                 if len(steps) == 1 and steps[0][0] == "upd" and steps[0][1] == phi_data and steps[0][2][0] == "i" and strip(steps[0][2][1]) == i_t:
@@ -78,7 +78,7 @@ def _traversal(ctx, se):
                 init = [v for p_, v in ins.items() if p_ not in loop]
                 back = [v for p_, v in ins.items() if p_ in loop]
                 tail_ok = len(back) == 1 and strip(back[0]) == strip(("field", payload, 1))
-                if some_t in loop and others_exit and len(init) == 1 and strip(init[0]) == ("param", 1) and tail_ok:
+                if some_t in loop and others_exit and len(init) == 1 and strip(init[0]) == ("param", dparam) and tail_ok:
                     elem = ("field", payload, 0)
                     elem_in = ("deref", elem)
                     writes = [(k, v) for k, v in se.assigns.items() if v[0][0] == "deref" and strip(v[0][1]) == strip(elem)]
@@ -103,7 +103,7 @@ def _select(se, t, env):
     return arith.norm(t, env)
 
 
-def step_rule(ctx, rep, fn, direction, keylen):
+def step_rule(ctx, rep, fn, direction, keylen, method_of=None):
     """fn(data: &mut [u8], key, index: &mut u8, previous_value: &mut u8).  Decides the per-byte
     transfer function, the state discipline inside the function and the traversal idiom."""
     se = ctx.wrap.run(fn)
@@ -111,6 +111,8 @@ def step_rule(ctx, rep, fn, direction, keylen):
         rep.violation("step", fn, "anchor", "function not found")
         return
     body = se.body
+    if method_of is not None:
+        return _step_rule_method(ctx, rep, fn, direction, keylen, se, method_of)
     tr = _traversal(ctx, se)
     if isinstance(tr, tuple):
         rep.violation("traversal", fn, "loop" if "found" in tr[1] else "in-order-whole-slice", tr[1], body.loc())
@@ -185,6 +187,82 @@ def step_rule(ctx, rep, fn, direction, keylen):
     idom = cfg.dominators(body)
     be = [e for e in cfg.back_edges(body) if e[1] == head or cfg.dominates(idom, head, e[0])]
     rep.check(bool(be) and all(cfg.dominates(idom, wb, t) for t, h in be), "step", fn, "unconditional", "the step is executed for every byte", "the byte/state update is conditional inside the loop", body.loc(wb))
+
+
+def _step_rule_method(ctx, rep, fn, direction, keylen, se, half):
+    """the per-byte step written directly in the half's method `fn(&mut self, data)`: the state
+    is (self.index, self.previous_value), the key is self.<key field>"""
+    fb = ctx.fb
+    body = se.body
+    tr = _traversal(ctx, se, dparam=2)
+    if isinstance(tr, tuple):
+        rep.violation("traversal", fn, "loop" if "found" in tr[1] else "in-order-whole-slice", tr[1], body.loc())
+        return
+    head, loop = tr["head"], tr["loop"]
+    fs = fb.adt_fields(half)
+    tys = [fb.ty(f["ty"]) for f in fs]
+    kf = [i for i, t in enumerate(tys) if t.k == "array"]
+    u8s = [i for i, t in enumerate(tys) if t.k == "int" and t.bits == 8 and not t.signed]
+    klen = tys[kf[0]].len if len(kf) == 1 else None
+    rep.check(klen == keylen and len(u8s) == 2 and len(fs) == 3, "step", fn, "key-length", "state = key [u8; %s] + two u8 counters" % klen, "half fields are %s, expected a [u8; %d] key and two u8 state bytes" % ([t.s for t in tys], keylen), body.loc())
+    if not (klen == keylen and len(u8s) == 2):
+        return
+    self_root = ("deref", ("param", 1))
+    phi_self = None
+    ins_self = None
+    for (bb, key), ins in se.phi_inputs.items():
+        if bb == head and key == self_root:
+            init = [v for p_, v in ins.items() if p_ not in loop]
+            if len(init) == 1 and init[0] == self_root:
+                phi_self, ins_self = ("phi", se.fn, bb, key, ()), ins
+    if phi_self is None:
+        rep.violation("step", fn, "state", "index / previous value are not loop-carried state (no update per byte?)", body.loc())
+        return
+    rep.ok("traversal", fn, "in-order-whole-slice", "plain in-order traversal of the whole slice, every element once (%s)" % tr["mode"], body.loc(head))
+    back = [v for p, v in ins_self.items() if p in loop]
+    in_term, out_terms, writes = tr["in_term"], tr["out_terms"], tr["writes"]
+    wb = writes[0][0][0] if writes else None
+    upd = {}
+    t = back[0] if len(back) == 1 else ("?",)
+    while t[0] == "upd" and t[2][0] == "f":
+        upd.setdefault(t[2][1], t[3])
+        t = t[1]
+    if len(out_terms) != 1 or len(back) != 1 or wb is None or t != phi_self or set(upd) != set(u8s):
+        rep.violation("step", fn, "shape", "per-byte step is not one store to the byte and one update of each of the two state bytes (fields written: %s)" % sorted(upd), body.loc())
+        return
+    sp = strip(phi_self)
+    # roles of the two state bytes: the index is the one used to look the key up
+    kb_terms = [x for x in walk(strip(out_terms[0])) if x[0] == "index" and strip(x[1]) == ("field", sp, kf[0])]
+    fi = None
+    for c in u8s:
+        envc = {("field", sp, c): "idx"}
+        if any(arith.norm(x[2], envc) == S("idx") for x in kb_terms):
+            fi = c
+    if fi is None:
+        rep.violation("step", fn, "index-update", "the key is not looked up at one of the two state bytes", body.loc())
+        return
+    fp = [c for c in u8s if c != fi][0]
+    env = {("field", sp, fi): "idx", ("field", sp, fp): "prev", in_term: "in", ("field", sp, kf[0]): "key"}
+    out = arith.norm(out_terms[0], env)
+    nidx = _select(se, upd[fi], env)
+    nprev = arith.norm(upd[fp], env)
+    kb = ("idx", S("key"), S("idx"))
+    if direction == "enc":
+        want_out = wadd(xor(S("in"), kb), S("prev"))
+        want_prev = want_out
+    else:
+        want_out = xor(("wsub", S("in"), S("prev")), kb)
+        want_prev = S("in")
+    want_idx = ("rem", ("add", S("idx"), I(1)), I(keylen))
+    rep.check(out == want_out, "step", fn, "output-byte", "out = %s" % arith.show(out), "output byte is %s, expected %s" % (arith.show(out), arith.show(want_out)), body.loc(writes[0][0][0]))
+    rep.check(nidx == want_idx, "step", fn, "index-update", "idx' = %s" % arith.show(nidx), "index update is %s, expected %s" % (arith.show(nidx), arith.show(want_idx)), body.loc())
+    rep.check(nprev == want_prev, "step", fn, "previous-update", "prev' = %s" % arith.show(nprev), "previous-value update is %s, expected %s" % (arith.show(nprev), arith.show(want_prev)), body.loc())
+    eff = se.param_effects()
+    rep.check(eff.get(1) == phi_self and len(ins_self) == 2, "state-discipline", fn, "only-the-step-writes", "index/previous value are written by the per-byte step only (empty input leaves them untouched)", "the half's state is also written outside the per-byte step: %s" % show(eff.get(1), maxdepth=2), body.loc())
+    idom = cfg.dominators(body)
+    be = [e for e in cfg.back_edges(body) if e[1] == head or cfg.dominates(idom, head, e[0])]
+    rep.check(bool(be) and all(cfg.dominates(idom, wb, t_) for t_, h in be), "step", fn, "unconditional", "the step is executed for every byte", "the byte/state update is conditional inside the loop", body.loc(wb))
+    return kf[0]
 
 
 def field_writers(fb, adt_path):
